@@ -21,12 +21,15 @@ FEATURES = set(gen.FEATURES) - {"faults"}
 # "web" programs: constants, aliases, comptime constants, types, type aliases, annotated constants
 # and (recursive) functions that refer to each other in every direction
 
-REC_KEY = "C20:web-rejected:error: circular definition, `_` has not yet been resolved"
+REC_KEY = "C20:web-rejected:error: circular definition, `f` has not yet been resolved"
 
 
 def rejected_key(errors):
+    """the first diagnostic with backticked payloads reduced to the *kind* of definition they name (K constant, f function, T type)"""
     msg = errors[0] if errors else "?"
-    return "C20:web-rejected:" + runner.normalise_msg(re.sub(r"`[^`]*`", "`_`", msg))[:80]
+    msg = re.sub(r"`(?:\w+::)*([A-Za-z]+?)\d+\w*`", r"`\1`", msg)
+    msg = re.sub(r"`[^`]*[^A-Za-z`][^`]*`", "`_`", msg)
+    return "C20:web-rejected:" + runner.normalise_msg(msg)[:80]
 
 
 def web_program(draw):
@@ -57,7 +60,7 @@ def web_program(draw):
         if types:
             kinds += ["type-alias"]
         if any(d[0] == "distinct" for d in types.values()):
-            kinds += ["const-annotated"]
+            kinds += ["const-annotated", "const-annotated", "const-annotated"]
         k = kinds[draw(st.integers(0, len(kinds) - 1))]
         if k == "const-lit":
             v = draw(st.integers(1, 9))
@@ -107,6 +110,10 @@ def web_program(draw):
             v = draw(st.integers(1, 9))
             consts[f"K{i}"] = (v, t)
             defs.append((f"K{i}", f"K{i} : {t} : {v};"))
+            if draw(st.booleans()):
+                # ... and another global that reads it
+                consts[f"K{i}r"] = (v, t)
+                defs.append((f"K{i}r", f"K{i}r :: K{i};"))
     body = []
     for name in sorted(consts):
         v, t = consts[name]
@@ -130,6 +137,38 @@ def web_program(draw):
             out.append("7")
     main_src = "main :: () {\n" + "\n".join(body) + "\n}\n"
     return defs, main_src, "".join(o + "\n" for o in out)
+
+
+PATTERNS = [
+    # (items, main body lines, expected output)
+    ([("T", "T :: distinct i64;"), ("K", "K : T : 3;"), ("R", "R :: K;")],
+     ['printf("%ld\\n", i64.(K));', 'printf("%ld\\n", i64.(R));'], "3\n3\n"),
+    ([("K", "K : usize : 4;"), ("A", "A :: K;"), ("S", "S :: struct { a: i64, b: [A]u8 };")],
+     ['v : S; printf("%ld\\n", i64.(v.b.len));', 'printf("%ld\\n", i64.(A));'], "4\n4\n"),
+    ([("K", "K : usize : 2;"), ("g", "g :: (x: i64) -> i64 { x * i64.(K) + 1 }"), ("N", "N :: comptime { g(5) };"), ("M", "M :: N;")],
+     ['printf("%ld\\n", N);', 'printf("%ld\\n", M);', 'printf("%ld\\n", g(1));'], "11\n11\n3\n"),
+    ([("T", "T :: distinct i64;"), ("U", "U :: T;"), ("K", "K : U : 5;"), ("R", "R :: K;")],
+     ['printf("%ld\\n", i64.(R));', 'd : U = U.(7); printf("%ld\\n", i64.(d));'], "5\n7\n"),
+    ([("K", "K :: comptime { usize.(2) + 3 };"), ("A", "A :: K;"), ("S", "S :: struct { b: [A]u8 };"), ("L", "L : usize : comptime { A * 2 };")],
+     ['v : S; printf("%ld\\n", i64.(v.b.len));', 'w : [L]S; printf("%ld\\n", i64.(w.len));'], "5\n10\n"),
+    ([("E", "E :: enum { A, B: T };"), ("T", "T :: struct { x: K2 };"), ("K2", "K2 :: i32;"), ("mk", "mk :: () -> E { E.B.(T.{ x = 6 }) }")],
+     ['switch v in mk() { .A => { puts("A"); }, .B => { printf("%ld\\n", i64.(v.x)); }, };'], "6\n"),
+]
+
+
+def sweep_cases():
+    """every permutation of every pattern x {one file, each item alone in a second file, all items in a second file}"""
+    import itertools
+    out = []
+    for items, body, expected in PATTERNS:
+        n = len(items)
+        main_src = "main :: () {\n" + "\n".join("    " + l for l in body) + "\n}\n"
+        splits = [[0] * n] + [[1 if j == i else 0 for j in range(n)] for i in range(n)] + [[1] * n]
+        arrangements = [{"perm": list(perm), "files": sp} for perm in itertools.permutations(range(n)) for sp in splits]
+        # batches of 12 arrangements
+        for k in range(0, len(arrangements), 12):
+            out.append({"web": {"items": [list(x) for x in items], "main": main_src, "expected": expected}, "arrangements": arrangements[k:k + 12], "sweep": True})
+    return out
 
 
 @st.composite
@@ -329,7 +368,8 @@ def replay_payload(payload, scratch):
     return None
 
 
-RULE = ("half of the cases: a generated web of definitions (literal / alias / comptime constants, comptime constants calling functions, recursive functions, structs whose array length is a "
+RULE = ("a deterministic sweep: 6 small webs of 3-4 interdependent definitions (annotated constant / reader / later-defined type, alias as array length, comptime constants through functions, "
+        "type aliases, enum-struct-alias chains) in every permutation x {one file, each item alone in a second file, all in a second file}; then, half of the generated cases: a generated web of definitions (literal / alias / comptime constants, comptime constants calling functions, recursive functions, structs whose array length is a "
         "constant, distinct types, type aliases, constants annotated with later-defined types) printed by main, with the expected output computed independently; the other half: "
         "base = a generated well-typed program (C01 generator: types, consts, functions calling each other); arrangements = random permutations of the top-level definitions and random "
         "partitions into 1-3 files with references rewritten to `file.name` and mutual imports (cycles allowed); 4 (quick) / 6 (thorough) arrangements per program; one evaluation = one "
@@ -346,6 +386,7 @@ def run(ctx):
             ctx.violations[k] = ("replayed case still fails", payload)
         shutil.rmtree(scratch, ignore_errors=True)
         return ctx.finish(RULE, False, [])
+    infra0 = core.run_batches(ctx, "pyv.c20", sweep_cases())
     total = 10000 if ctx.thorough else 400
     infra = core.hypothesis_search(ctx, "pyv.c20", total, profiles=("thorough", "web-thorough") if ctx.thorough else ("quick", "web-quick"))
     scratch = core.make_scratch("C20", "kf")
@@ -354,4 +395,4 @@ def run(ctx):
         "for rejected programs only the set of diagnostic kinds is compared, not their order",
     ], replayer=lambda p: replay_payload(p, scratch), min_nontrivial=50 if not ctx.collect_all() else 0)
     shutil.rmtree(scratch, ignore_errors=True)
-    return 2 if infra and rc == 0 else rc
+    return 2 if (infra or infra0) and rc == 0 else rc
